@@ -585,17 +585,24 @@ func (h *History) CheckC11Control(res *Result) []Violation {
 	return out
 }
 
-// ranBefore reports whether a run went live (a successful Running status write) before idx.
+// ranBefore reports whether a run went live (a successful Running status write) before idx and
+// no Start was issued by a client since: a Start attempt, also a failed one, supersedes the
+// recorded result of the previous run, so a later wait has no run to report on.
 func (h *History) ranBefore(idx int) bool {
+	ran := false
 	for i, e := range h.Events {
 		if i >= idx {
 			break
 		}
 		if e.Kind == EvStatus && e.OK && strings.HasPrefix(e.Info, "Running") {
-			return true
+			ran = true
+		}
+		if e.Kind == EvCtlCall && e.Comp == "start" && ran {
+			// the Running write of this Start (if it succeeds) comes later and sets ran again
+			ran = false
 		}
 	}
-	return false
+	return ran
 }
 
 func isTerminalName(s string) bool {
